@@ -99,6 +99,16 @@ func (p *project) describe() string {
 	for _, n := range sortedKeys(p.Enums) {
 		b.WriteString(" " + n + "=enum" + strconv.Quote(p.Enums[n]))
 	}
+	if len(p.Nested) > 0 {
+		j, _ := stdjson.Marshal(p.Nested)
+		b.WriteString(" nested=" + string(j))
+	}
+	if p.Mesh {
+		b.WriteString(" meshed")
+	}
+	if p.TypeFile != "" {
+		b.WriteString(" typeFile=" + p.TypeFile)
+	}
 	return b.String()
 }
 
@@ -163,6 +173,50 @@ func (r *spaceRunner) run(b spaceBounds) {
 	}
 	// (d) reference-graph family
 	r.graphFamily()
+	// (e) string-content family
+	r.stringFamily()
+}
+
+// stringFamily: quoted strings whose content mixes malformed UTF-8 bytes with
+// ordinary bytes and escapes (every count of each up to a bound), in every
+// place a string can stand. The unquoting code works on a buffer sized from the
+// input length, so the counts - not the particular bytes - select its paths.
+func (r *spaceRunner) stringFamily() {
+	w := r.w
+	var i int64
+	for _, bad := range []string{"\x80", "\xe9", "\xff", "\xf0\x9f"} {
+		for _, pre := range []string{"", "a", "abcdefghi"} {
+			for k := 0; k <= 10; k++ {
+				for _, unit := range []string{"a", `\n`, `\u0041`, `\ud83d\ude00`, "\u00e9"} {
+					for m := 0; m <= 12; m++ {
+						i++
+						if !w.Mine(i) {
+							continue
+						}
+						if i&0xff == 0 && w.OverBudget() {
+							return
+						}
+						body := pre + strings.Repeat(bad, k) + strings.Repeat(unit, m)
+						q := `"` + body + `"`
+						r.bytesCase("enum", []byte("["+q+"]"))
+						r.bytesCase("enum", []byte("["+q+", "+q+"]"))
+						r.bytesCase("schema", []byte(q))
+						r.bytesCase("schema", []byte("{"+q+": 1}"))
+						r.bytesCase("schema", []byte(q+" // {enum: ["+q+"]}"))
+						r.bytesCase("schema", []byte(q+" // {const: true}"))
+						r.bytesCase("schema", []byte(`1 // {or: [{type: "string", regex: `+q+`}, {type: "integer"}]} - `+body))
+						r.bytesCase("jsondoc", []byte(q))
+						r.bytesCase("jsondoc", []byte("{"+q+":"+q+"}"))
+						r.bytesCase("regex", []byte("/"+body+"/"))
+						w.S.Nontrivial++
+					}
+				}
+			}
+		}
+	}
+	if w.Shard == 0 {
+		w.Count("string_family.strings", i)
+	}
 }
 
 // exponentGrid runs in its own shard: the large exponents are slow and two of them
